@@ -93,6 +93,34 @@ def unknown(reason, *extra, loc=None):
 _NEG_EXT = ('jax.numpy.logical_not', 'jax.numpy.invert', 'jax.numpy.bitwise_not', 'numpy.logical_not', 'numpy.invert')
 
 
+def _explicit_negation(c):
+  if c.op == 'un' and c.args[0] in ('not', '~'):
+    return c.args[1]
+  if c.op == 'call' and c.args[0].op == 'ext' and c.args[0].args[0] in _NEG_EXT and len(c.args[1]) == 1 and not c.args[2]:
+    return c.args[1][0]
+  return None
+
+
+def _de_morgan(c):
+  if c.op == 'call' and c.args[0].op == 'ext' and len(c.args[1]) == 2 and not c.args[2]:
+    name = c.args[0].args[0]
+    dual = {'jax.numpy.logical_and': 'jax.numpy.logical_or', 'jax.numpy.logical_or': 'jax.numpy.logical_and',
+            'numpy.logical_and': 'numpy.logical_or', 'numpy.logical_or': 'numpy.logical_and'}.get(name)
+    if dual is not None:
+      inner = [_explicit_negation(x) for x in c.args[1]]
+      if all(x is not None for x in inner):
+        return T('call', T('ext', dual), tuple(inner), ())
+  if c.op == 'bin' and c.args[0] in ('&', '|'):
+    inner = [_explicit_negation(x) for x in c.args[1:]]
+    if all(x is not None for x in inner):
+      return T('bin', '|' if c.args[0] == '&' else '&', *inner)
+  if c.op == 'bool' and c.args[0] in ('and', 'or') and len(c.args) >= 3:
+    inner = [_explicit_negation(x) for x in c.args[1:]]
+    if all(x is not None for x in inner):
+      return T('bool', 'or' if c.args[0] == 'and' else 'and', *inner)
+  return None
+
+
 def strip_negation(c):
   """(c', flipped): c == (not c') when flipped.  Recognises `not x`, `~x`, jnp.logical_not(x), `a != b` and
   jnp.not_equal(a, b) (-> a == b), repeatedly."""
@@ -112,6 +140,12 @@ def strip_negation(c):
       continue
     if c.op == 'call' and c.args[0].op == 'ext' and c.args[0].args[0] in ('jax.numpy.not_equal', 'numpy.not_equal') and len(c.args[1]) == 2 and not c.args[2]:
       c, flipped = T('cmp', '==', c.args[1][0], c.args[1][1]), not flipped
+      continue
+    # De Morgan: a conjunction (disjunction) whose operands are all explicit negations is the negated disjunction
+    # (conjunction) of the operands: and(~a, ~b) == ~or(a, b)
+    dm = _de_morgan(c)
+    if dm is not None:
+      c, flipped = dm, not flipped
       continue
     # ordering tests: the four spellings of one test (a >= b, b <= a, not a < b, not b > a) become `a >= b`
     if c.op == 'cmp' and len(c.args) == 3 and c.args[0] in ('<=', '<', '>'):
